@@ -376,7 +376,12 @@ func randIntSmallInt(low, high int) (vals.Num, error) {
 		return 0, errs.BadValue{What: "high value",
 			Valid: fmt.Sprint("larger than ", low), Actual: strconv.Itoa(high)}
 	}
-	x := withRand(func(r *rand.Rand) int { return r.Intn(high - low) })
+	diff := high - low
+	if diff <= 0 {
+		// high - low overflows int.
+		return randIntBigInt(big.NewInt(int64(low)), big.NewInt(int64(high)))
+	}
+	x := withRand(func(r *rand.Rand) int { return r.Intn(diff) })
 	return low + x, nil
 }
 
